@@ -402,6 +402,7 @@ func runC11(rt *Runtime, r *RunCtx, s *Script) {
 			a.Exec(i, &op)
 			if op.K == "block" && !a.C.Halted {
 				c11Views(a)
+				c11ViewWitness(a)
 			}
 		}
 		if s.Extra["twin"] != "1" || a.C.Halted {
@@ -624,6 +625,23 @@ func genC11(rng *rand.Rand, seed uint64, tier string) *Script {
 			ops = append(ops, Op{K: "bank", W: 1, To: fmt.Sprintf("c:router%d", i), Val: "900000000", Denom: BaseDenom, Price: c11Price, Gas: "200000"})
 		}
 		ops = append(ops, Op{K: "block", Dt: 5})
+		ops = append(ops, Op{K: "vw", W: 0, Mut: "delegate", A: []string{val(), "300000000000000000000"}, Price: c11Price}, Op{K: "block", Dt: 5})
+	}
+	vwOp := func() Op {
+		op := Op{K: "vw", W: rng.IntN(g.Wallets), Price: c11Price}
+		switch k := rng.IntN(100); {
+		case k < 35:
+			op.Mut = "withdrawRewards"
+		case k < 55:
+			op.Mut, op.A = "withdrawReward", []string{val()}
+		case k < 75:
+			op.Mut, op.A = "delegate", []string{val(), pick(rng, "1000", "50000000000000000000", "999999999999999999999999")}
+		case k < 88:
+			op.Mut, op.A = "undelegate", []string{val(), pick(rng, "10", "1000000000")}
+		default:
+			op.Mut, op.A = "redelegate", []string{"val0", "val1", pick(rng, "10", "400")}
+		}
+		return op
 	}
 	nb := 5 + rng.IntN(9)
 	for b := 0; b < nb; b++ {
@@ -672,6 +690,9 @@ func genC11(rng *rand.Rand, seed uint64, tier string) *Script {
 			}
 			op.Price = c11Price
 			ops = append(ops, op)
+		}
+		if !twin && rng.IntN(2) == 0 {
+			ops = append(ops, vwOp()) // the view witness is the last tx of its block
 		}
 		ops = append(ops, Op{K: "block", Dt: pick(rng, 1, 5, 5, 30), Prop: rng.IntN(3)})
 		for i, n := 0, pick(rng, 0, 0, 2, 6); i < n; i++ {
